@@ -11,6 +11,7 @@ on the flush or close write, stalls, timeouts) are placed inside sessions.
 from __future__ import annotations
 
 import copy
+import os
 import pickle
 
 import msgpack
@@ -437,6 +438,12 @@ def _run_plan(plan, trace=False):
                 if S.pid == f.pid and S.idx == si:
                     S.fault = S.fault or f"io_{f.kind}@{f.phase.split(':')[1]}"
 
+        # seam liveness: a refactoring that reaches the real file system or the real fcntl around the seams
+        # would make this simulation vacuous
+        if any(S.b0 is not None for S in sessions) and (kern.counters["seam:open"] == 0 or kern.counters["seam:trylock"] == 0):
+            raise K.HarnessError(f"SEAM-LOST C04: open={kern.counters['seam:open']} trylock={kern.counters['seam:trylock']}")
+        if any(not os.path.islink(os.path.join(os.getcwd(), f)) for f in os.listdir(os.getcwd())):
+            raise K.HarnessError(f"SEAM-LOST C04: a real file appeared in the sandbox directory: {os.listdir(os.getcwd())}")
         _oracles(plan, kern, sched, sessions, marks, res, limit_hit)
 
         # D: final durability, read by a fresh process
